@@ -67,6 +67,7 @@ EOF
 
 # --- runtime (must exist before instrumenting so the import resolves)
 mkdir -p "$S/src/xsimrt" && cp "$VERIF/sim/simrt/rt.go" "$S/src/xsimrt/rt.go" || fail "copy runtime"
+mkdir -p "$S/src/xscribble" && cp "$VERIF/sim/scribble/scribble.go" "$S/src/xscribble/scribble.go" || fail "copy scribble"
 
 # --- instrument: import closure of the four public packages
 PATS=""
@@ -84,6 +85,7 @@ if [ "$MODPATH" != "github.com/openacid/slim" ]; then
 fi
 (cd "$S/src" && go build -o "$S/bin/harness" ./xharness) >"$S/out/build.log" 2>&1 || { cat "$S/out/build.log" >&2; fail "harness build failed"; }
 if [ -n "$WANT_RACE" ]; then
-  (cd "$S/src" && CGO_ENABLED=1 go build -race -o "$S/bin/harness-race" ./xharness) >"$S/out/build-race.log" 2>&1 || { cat "$S/out/build-race.log" >&2; fail "race build failed"; }
+  # the harness and the runtime shim are NOT race-instrumented (controlled race lane, DESIGN 12.10)
+  (cd "$S/src" && CGO_ENABLED=1 go build -race -gcflags="$MODPATH/xharness=-race=false" -gcflags="$MODPATH/xsimrt=-race=false" -o "$S/bin/harness-race" ./xharness) >"$S/out/build-race.log" 2>&1 || { cat "$S/out/build-race.log" >&2; fail "race build failed"; }
 fi
 exit 0
